@@ -231,6 +231,49 @@ def prelude(run, report=(), order="others_first"):
     return out
 
 
+def touch_all():
+    """what a program that uses the models has usually done with the Lie-group API before it derives them: a pass over
+    the element-level operations of every group on plain numbers (results discarded).  Whatever these first uses leave
+    behind in the group objects (memoised Functions, slots shared by two methods, tables keyed too coarsely) is then
+    inherited by the model derivations the check looks at.  Order: the LEFT variants before the right ones, inverses
+    after, identity elements first -- the opposite of what the shipped models need first."""
+    import cyecca.lie as L
+    def sink(*a):
+        pass
+    try:
+        prelude(None)
+    except Exception:       # noqa
+        pass
+    qv = [0.5, 0.5, -0.5, 0.5]
+    elems = [(L.SO3Quat, qv), (L.SO3Mrp, [0.2, -0.3, 0.1]), (L.SO3Dcm, None), (L.SO3EulerB321, [0.3, -0.4, 0.5]),
+             (L.SE3Quat, [1, 2, 3] + qv), (L.SE3Mrp, [1, 2, 3, 0.2, -0.3, 0.1]), (L.SE23Quat, [1, 2, 3, -1, 0, 2] + qv),
+             (L.SE23Mrp, [1, 2, 3, -1, 0, 2, 0.2, -0.3, 0.1]), (L.SE2, [1, -2, 0.7]), (L.SO2, [0.7]), (L.R3, [1, 2, 3])]
+    for G, p in elems:
+        try:
+            X = G.elem(ca.DM(p)) if p is not None else L.SO3Dcm.from_Quat(L.SO3Quat.elem(ca.DM(qv)))
+        except Exception:   # noqa
+            continue
+        for name in ("left_jacobian", "right_jacobian", "left_jacobian_inv", "right_jacobian_inv", "Ad", "to_Matrix", "inverse", "log"):
+            try:
+                sink(getattr(X, name)())
+            except Exception:   # noqa
+                pass
+        try:
+            sink((X * X.inverse()).to_Matrix())
+        except Exception:   # noqa
+            pass
+    for alg, p in ((L.so3, [0.3, -0.2, 0.1]), (L.se3, [1, 2, 3, 0.3, -0.2, 0.1]), (L.se23, [1, 2, 3, -1, 0, 2, 0.3, -0.2, 0.1]), (L.se2, [1, -2, 0.7])):
+        try:
+            x = alg.elem(ca.DM(p))
+        except Exception:   # noqa
+            continue
+        for name in ("left_jacobian", "right_jacobian", "left_jacobian_inv", "right_jacobian_inv", "ad", "to_Matrix"):
+            try:
+                sink(getattr(x, name)())
+            except Exception:   # noqa
+                pass
+
+
 if __name__ == "__main__":      # python -m harness.lie <order>  -> JSON list of disagreements (second-process prelude of C07)
     import sys, json, io, contextlib
     with contextlib.redirect_stdout(io.StringIO()):
